@@ -57,7 +57,7 @@ _VAL = re.compile(r"%[\w#]+")
 
 SHAPES = (["cc_int"] * 10 + ["cc_flt"] * 6 + ["cc_cmp"] * 5 + ["ident"] * 10 + ["same"] * 7 + ["select"] * 6 +
           ["chain"] * 5 + ["dup"] * 12 + ["fconsts"] * 5 + ["iconsts"] * 2 + ["mem"] * 8 + ["call"] * 4 +
-          ["while"] * 2 + ["effect"] * 4 + ["cast"] * 4 + ["guarded_cc"] * 5 + ["cc_addi"] * 3 + ["cast_pair"] * 3)
+          ["while"] * 2 + ["effect"] * 4 + ["cast"] * 4 + ["guarded_cc"] * 5 + ["cc_addi"] * 3 + ["cast_pair"] * 3 + ["twin"] * 6)
 
 
 class Gen14(Gen):
@@ -305,7 +305,15 @@ class Gen14(Gen):
             else:
                 x = self.emit(env, lines, ind, f"arith.{opn} {x}, {c} : {t}", t)
 
-    def s_dup(self, env, lines, ind, depth):
+    _SWAP = re.compile(r"^(arith\.(?:addi|muli|andi|ori|xori|addf|mulf|subi|subf|divf|shli|shrui|shrsi|minsi|maxui|"
+                       r"cmpi \w+,|cmpf \w+,)) (%[\w#]+), (%[\w#]+) (.*)$")
+    _SEL = re.compile(r"^arith\.select (%[\w#]+), (%[\w#]+), (%[\w#]+) (.*)$")
+
+    def s_twin(self, env, lines, ind, depth):
+        """an earlier binary op / select re-emitted with swapped operands (same operand *set*, different meaning)"""
+        return self.s_dup(env, lines, ind, depth, swap=True)
+
+    def s_dup(self, env, lines, ind, depth, swap=False):
         """re-emit an earlier expression whose operands are all still in scope (identical -> CSE candidate)"""
         rng = self.rng
         names = {v: t for v, t in env}
@@ -319,6 +327,10 @@ class Gen14(Gen):
             res, rhs = m.group(1), m.group(2)
             ops_ = _VAL.findall(rhs)
             if all(o in names for o in ops_):
+                if swap:
+                    m2 = self._SWAP.match(rhs) or self._SEL.match(rhs)
+                    if not m2 or m2.group(2) == m2.group(3):
+                        continue
                 cands.append((res, rhs))
         if not cands:
             return self.s_ident(env, lines, ind, depth)
@@ -326,13 +338,12 @@ class Gen14(Gen):
         t = names.get(res) or self._type_of(rhs)
         if t is None:
             return self.s_ident(env, lines, ind, depth)
-        if rng.random() < 0.25:  # twin with swapped operands: must NOT be merged with the original unless commutative
-            m = re.match(r"^(arith\.(?:addi|muli|andi|ori|xori|addf|mulf|subi|subf|divf|shli|shrui|shrsi|minsi|maxui|"
-                         r"cmpi \w+,|cmpf \w+,)) (%[\w#]+), (%[\w#]+) (.*)$", rhs)
+        if swap or rng.random() < 0.1:  # twin with swapped operands: must NOT be merged with the original unless commutative
+            m = self._SWAP.match(rhs)
             if m and not (self.no_var_addi and "addi" in m.group(1)):
                 rhs = f"{m.group(1)} {m.group(3)}, {m.group(2)} {m.group(4)}"
             else:
-                m = re.match(r"^arith\.select (%[\w#]+), (%[\w#]+), (%[\w#]+) (.*)$", rhs)
+                m = self._SEL.match(rhs)
                 if m:
                     rhs = f"arith.select {m.group(1)}, {m.group(3)}, {m.group(2)} {m.group(4)}"
         self.emit(env, lines, ind, rhs, t)
